@@ -1881,12 +1881,15 @@ def skip_fixture(kind="plain"):
 
     leaf = Leaf(a=3, e=(1, "t"), raw=np.ones(1))
     mid_cls = NNInner if kind == "module" else Inner
-    mid = mid_cls(a=2, b="x", raw=[1, 2], d=leaf)
-    return Box(a=1, b=np.arange(3.0), raw=np.zeros(2), c=mid, t=_torch.ones(2), s="keep", lst=[1, "x"])
+    # dict-valued attributes whose KEYS are spelled like skippable attribute names / whose values are instances of skippable types:
+    # containers are not attributes - skipping must not reach into them
+    mid = mid_cls(a=2, b="x", raw=[1, 2], d=leaf, settings={"a": 5, "e": "kept", "zz_absent": [1, "y"]})
+    return Box(a=1, b=np.arange(3.0), raw=np.zeros(2), c=mid, t=_torch.ones(2), s="keep", lst=[1, "x"],
+               settings={"a": 7, "raw": np.ones(2), "d": "kept", "bias": 0.5}, pair=("x", np.zeros(1)))
 
 
 SKIP_UNIVERSE = ["a", "b", "raw", "c", "d", "e", "zz_absent"]
-SKIP_TYPES = {"ndarray": lambda: __import__("numpy").ndarray, "Tensor": lambda: _torch.Tensor, "int": lambda: int, "str": lambda: str,
+SKIP_TYPES = {"ndarray": lambda: __import__("numpy").ndarray, "Tensor": lambda: _torch.Tensor, "int": lambda: int, "str": lambda: str, "float": lambda: float,
               "Inner": lambda: Inner, "list": lambda: list}
 
 
@@ -1935,7 +1938,7 @@ def fam_skip(tier="quick", seed=0):
         if len(S) >= 2:
             yield dict(save=S[: len(S) // 2], load=S[len(S) // 2:], store=store)
             yield dict(save=S, load=S, store=store)
-    for tn in (["ndarray"], ["Tensor"], ["int"], ["str", "ndarray"], ["Inner"], ["list"]):
+    for tn in (["ndarray"], ["Tensor"], ["int"], ["str", "ndarray"], ["Inner"], ["list"], ["float"]):
         for store in ("zip", "dir"):
             yield dict(save=[], load=[], save_types=tn, store=store)
         yield dict(save=["a"], load=["e"], save_types=tn, store="zip")
